@@ -807,7 +807,10 @@ def check_C05(tier):
 C05_THEOREMS = ["PackA.C05_pack_roundtrip", "PackA.C05_unpack_pack", "PackA.place_inv", "PackP.lookup_correct",
                 "SplitA.C05_split_lookup", "SplitA.C05_split_lookup_any", "SplitA.C05_split_lookup_simple", "SplitA.denseWF_of_simple"]
 C05_THEOREMS += ["C05c.C05_action_global", "C05c.C05_action_object", "C05c.C05_action_is_dense"]
-C05_MODULES = ["Yv.Props.C05", "Yv.Props.C05b", "Yv.Props.C05c"]
+# the text of the packed arrays / the plain table printed into the generated file reads back as exactly the arrays (emission model, tied per run)
+C05_THEOREMS += ["Y.Props.emit_dec_readback", "Y.Props.emit_arr_readback", "Y.Props.C05_emit_packed_readback",
+                 "Y.Props.C01_emit_rows_readback_go", "Y.Props.C01_emit_rows_readback_ts", "Y.Props.C01_emit_dense_readback_go", "Y.Props.C01_emit_dense_readback_ts"]
+C05_MODULES = ["Yv.Props.C05", "Yv.Props.C05b", "Yv.Props.C05c", "Yv.Props.C11b"]
 
 
 def parse_blocks(txt, begin, end):
@@ -1147,8 +1150,13 @@ C08_THEOREMS = ["Y.Props.C08_equiv", "Y.AD.astep_refines", "Y.AD.arun_refines",
                 "Y.Props.packed_run_eq", "Y.Props.C01_end_to_end_global_go", "Y.Props.C01_end_to_end_object_go",
                 "Y.Props.C02_end_to_end_global_go", "Y.Props.C02_end_to_end_object_go",
                 "Y.Props.C06_end_to_end_global_go", "Y.Props.C06_end_to_end_object_go",
-                "Y.Props.C06_end_to_end_global_checked", "Y.Props.C06_end_to_end_object_checked"]
-C08_MODULES = ["Yv.Props.C08", "Yv.Props.C08b", "Yv.Props.EndToEnd"]
+                "Y.Props.C06_end_to_end_global_checked", "Y.Props.C06_end_to_end_object_checked",
+                # termination at the level of the generated text: under the table certificate the translated Parser text reaches
+                # a verdict within termBound loop iterations, the verdict is stable under more fuel, and it decides the language
+                "Y.Props.C06_end_to_end_terminates_global_go", "Y.Props.C06_end_to_end_terminates_object_go",
+                "Y.Props.C06_end_to_end_decides_global_go", "Y.Props.C06_end_to_end_decides_object_go",
+                "Y.Props.goParserGlobal_mono", "Y.Props.goParserObject_mono"]
+C08_MODULES = ["Yv.Props.C08", "Yv.Props.C08b", "Yv.Props.EndToEnd", "Yv.Props.EndToEndTerm"]
 C08_LEVEL = "proof"
 
 
@@ -1278,6 +1286,10 @@ def emit_ties(sources, keys=None):
             t = l.split()
             if t[:2] == ["M", "EP"]:
                 mv[(t[2], t[3])] = t[4]
+            elif t[:2] == ["M", "EV"] and "FAIL" in t:
+                # hypotheses of the read-back theorems evaluated on this grammar's names
+                ties.append({"what": "a hypothesis of the emission read-back theorems does not hold on this grammar's names: " + " ".join(t[2:]),
+                             "case": c["id"], "src": c["src"][:1500]})
         texts[c["src"]] = {k: dec(v) for k, v in iv.items() if v != "PANIC"}
         for k in sorted(set(iv) | set(mv)):
             if keys is not None and k[1] not in keys:
@@ -2222,8 +2234,12 @@ def check_C11(tier):
 
 
 C11_THEOREMS = ["Visitor.C11_codes_distinct", "Visitor.C11_codes_kept", "Visitor.C11_codes_fresh",
-                "Visitor.C11_codes_distinct_rules", "Visitor.C11_sym_values_distinct"]
-C11_MODULES = ["Yv.Props.C11"]
+                "Visitor.C11_codes_distinct_rules", "Visitor.C11_sym_values_distinct",
+                # the const block and the translate switch printed into the generated file read back as exactly the codes (emission model, tied per run)
+                "Y.Props.C11_emit_translate_readback_go", "Y.Props.C11_emit_translate_readback_ts", "Y.Props.C11_emit_consts_readback_go",
+                "Y.Props.C11_emit_consts_readback_ts", "Y.Props.C11_emit_translate_functional", "Y.Props.C06_emitted_codes_go", "Y.Props.C06_emitted_codes_ts",
+                "Y.Props.C06_emitted_codes_last"]
+C11_MODULES = ["Yv.Props.C11", "Yv.Props.C11b"]
 C11_LEVEL = "proof"
 
 
